@@ -53,7 +53,7 @@ class C16Machine(Machine):
            "target_column_last", "str_path", "pd_target_column", "later_row_also_fails",
            "result_missing_empty_cell", "target_cell_changed", "pd_missing_is_na", "pd_strict_raised",
            "zero_rows", "fault_in_other_column", "ambiguous_mode_converted_cell", "file_larger_than_8k", "table_ge_40_rows",
-           "eol_crlf", "eol_lf", "eol_mixed", "no_final_line_terminator", "sep_explicit_tab", "relative_path", "pd_target_is_source", "cell_with_unicode_line_boundary",
+           "eol_crlf", "eol_lf", "eol_mixed", "no_final_line_terminator", "sep_explicit_tab", "relative_path", "pd_target_is_source", "pd_int_labels", "pd_int_labels_not_positions", "cell_with_unicode_line_boundary",
            "pd_index_custom", "pd_index_reversed", "pd_index_offset", "pd_index_duplicated", "pd_index_sliced"]
     )
 
@@ -260,8 +260,10 @@ class C16Machine(Machine):
             pf = rng.choice(PD_FUNCS)
             _, prow = self._table(rng, pf)
             names = ["c" + str(i) for i in range(cfg["width"])]
-            if rng.random() < 0.3:
-                names = list(range(cfg["width"]))
+            if rng.random() < 0.35:
+                # integer column labels - equal to the positions, reversed, or unrelated to them
+                w = cfg["width"]
+                names = rng.choice([list(range(w)), list(range(w - 1, -1, -1)), [10 * (i + 1) for i in range(w)]])
             tc = rng.choice([None, None, "new", "other", "same"])
             target = None
             if tc == "same":
@@ -562,6 +564,8 @@ class C16Machine(Machine):
         if col not in names:
             return {"skipped": "column"}
         ci = names.index(col)
+        if isinstance(col, int):
+            self.probe("pd_int_labels" if names == list(range(len(names))) else "pd_int_labels_not_positions")
         ik = op.get("index", "range")
         n = len(rows)
         index = {"custom": [f"r{i}" for i in range(n)], "reversed": list(range(n - 1, -1, -1)),
